@@ -84,11 +84,26 @@ def run(ck):
     files = [os.path.join(ck.work, 'reset_%02d.ndjson' % i) for i in range(n)]
     twin = [f.replace('.ndjson', '.twin.ndjson') for f in files]
     ninst = ck.pick(12, 40)
-    cmds = ['MALLOC_PERTURB_=%d %s --seed %d --n %d --out %s' % (37 + i, ck.bin('reset_rec'), ck.seed * 53 + i, ninst, f)
+    cmds = ['MALLOC_PERTURB_=%d VERIF_NEW_FILL=%d %s --seed %d --n %d --out %s' % (37 + i, (0xA5, 0xFF, 0x5A, 0x01)[i % 4], ck.bin('reset_rec'), ck.seed * 53 + i, ninst, f)
             for i, f in enumerate(files)]
-    cmds += ['MALLOC_PERTURB_=%d %s --seed %d --n %d --out %s' % (201 - i, ck.bin('reset_rec'), ck.seed * 53 + i, ninst, f)
+    cmds += ['MALLOC_PERTURB_=%d VERIF_NEW_FILL=%d %s --seed %d --n %d --out %s' % (201 - i, (0x3C, 0x00, 0xC3, 0x80)[i % 4], ck.bin('reset_rec'), ck.seed * 53 + i, ninst, f)
              for i, f in enumerate(twin)]
     ck.run_jobs(cmds)
+    # a crash of the recorder (signal, abort) is an observation too: no rule of the specification allows it
+    faulted = set()
+    for f in files + twin:
+        for n_, ln in enumerate(open(f), 1):
+            if '"e":"Fault"' in ln:
+                keep = os.path.join(ck.replay_dir, os.path.basename(f))
+                import shutil
+                shutil.copyfile(f, keep)
+                ck.violation('fault:%s' % json.loads(ln).get('kind', '?'), '%s#%d' % (keep, n_),
+                             'the emulator crashed while being constructed / reset / driven on a dirty heap: %s' % ln.strip()[:200])
+                faulted.add(f)
+                break
+    files = [f for f in files if f not in faulted]
+    twin = [g for g in twin if g.replace('.twin.ndjson', '.ndjson') in files and g not in faulted]
+    files = [f for f in files if f.replace('.ndjson', '.twin.ndjson') in twin]
     # determinism across processes / allocation patterns: identical observation streams
     for f, g in zip(files, twin):
         if open(f).read() != open(g).read():
